@@ -51,7 +51,7 @@ ASSUMPTIONS = [
     "refusal is only demanded when the corresponding centres are farther apart than every patch radius of "
     "every catalog involved (the library compares against half the radius of its largest catalog)",
 ]
-PROBES = ["single_record_patch", "mode_apply", "mode_divide", "mode_create", "refusal_ids", "refusal_permuted", "refusal_displaced", "refusal_single_displaced", "nometa_parallel_open"]
+PROBES = ["patch_column_and_centres_given", "misaligned_first_and_smaller", "single_record_patch", "mode_apply", "mode_divide", "mode_create", "refusal_ids", "refusal_permuted", "refusal_displaced", "refusal_single_displaced", "nometa_parallel_open"]
 REAL_VS_STUB = dict(
     real="yaw catalog creation, Patch/Metadata, load_patches, PatchLinkage guards, YAML; tmpfs",
     stub="multiprocessing (sim.fakemp), treecorr RNG/threads, _num_processes",
@@ -69,6 +69,8 @@ def gen_case(prng: Prng, tier: str, i: int) -> dict:
             n=prng.randint(30, 90),
             workers=prng.choice([1, 2, 3, 5]),
             entry=prng.choice(["cross", "cross", "auto"]),
+            swap=prng.chance(1, 2),       # which catalog is the first positional argument
+            big=prng.choice(["A", "B"]),  # which catalog is the larger one
             policy=prng.choice(["prng", "first", "last"]),
             sched_seed=prng.below(1 << 40),
         )
@@ -90,7 +92,8 @@ def gen_case(prng: Prng, tier: str, i: int) -> dict:
             w_dtype=prng.choice(["f8", "f8", "i4"]),
         ),
         source=prng.choice(["df", "df", "hdf5", "parquet", "fits"]),
-        patch=dict(mode=mode, k=k, center_seed=prng.below(1 << 20), pid_dtype="i8", pid_scramble=False),
+        patch=dict(mode=mode, k=k, center_seed=prng.below(1 << 20), pid_dtype="i8", pid_scramble=False,
+                   **({"extra_pid_column": True} if (mode == "apply" and prng.chance(1, 4)) else {})),
         chunksize=prng.choice([None, 3, 7, 20, 64]),
         workers=prng.choice([1, 2, 3, 4, 8]),
         use_none=prng.chance(1, 4),
@@ -146,6 +149,8 @@ def _part_a(case: dict, root: str) -> dict:
 
     o = creation.run_creation(case, os.path.join(root, "a"))
     probes = {f"mode_{case['patch']['mode']}": 1}
+    if case["patch"].get("extra_pid_column"):
+        probes["patch_column_and_centres_given"] = 1
     try:
         base = dict(digest=o["digest"], nontrivial=o["nontrivial"], steps=o["steps"], head=o["head"], choices=o["choices"])
         if o["verdict"] != Verdict.COMPLETE or o["outcome"] != "returned":
@@ -215,8 +220,10 @@ def _part_b(case: dict, root: str) -> dict:
     edges = [0.1, 0.5, 1.0]
     # redshifts strictly inside the binning: a patch without any object in any bin
     # trips an unrelated defect in build_trees before the guard is reached
-    ra = wl.gen_records(seed, n, has_w=False, has_z=True, zedges=edges, zpad=-0.01, edge_frac=0.0)
-    rb = wl.gen_records(seed + 1, n, has_w=True, has_z=True, zedges=edges, zpad=-0.01, edge_frac=0.0)
+    na = min(wl.NMAX, 2 * n + 9) if case.get("big") == "A" else n
+    nb = min(wl.NMAX, 2 * n + 9) if case.get("big") == "B" else n
+    ra = wl.gen_records(seed, na, has_w=False, has_z=True, zedges=edges, zpad=-0.01, edge_frac=0.0)
+    rb = wl.gen_records(seed + 1, nb, has_w=True, has_z=True, zedges=edges, zpad=-0.01, edge_frac=0.0)
     centers = wl.gen_centers(seed + 2, k, "box")
     centers = wl.ensure_nonempty_centers(ra, centers)
     centers = wl.ensure_nonempty_centers(rb, centers)
@@ -269,10 +276,12 @@ def _part_b(case: dict, root: str) -> dict:
         return dict(verdict="discard", detail="misalignment smaller than the patch radius: refusal not demanded")
     config = wl.make_config(dict(rmin=0.5, rmax=3.0, unit="deg", edges=edges))
 
+    first, second = (cbt, ca) if case.get("swap") else (ca, cbt)
+
     def main():
         if case["entry"] == "cross":
-            return yaw.crosscorrelate(config, ca, cbt, unk_rand=cbt, max_workers=None)
-        return yaw.autocorrelate(config, ca, cbt, max_workers=None)
+            return yaw.crosscorrelate(config, first, second, unk_rand=second, max_workers=None)
+        return yaw.autocorrelate(config, first, second, max_workers=None)
 
     sim = Sim(case.get("sched_seed", 0), choices=case.get("schedule"), policy=case.get("policy", "prng"), fs_root=root, cores=case["workers"], step_cap=50_000)
     with fakemp.patched(sim):
@@ -287,7 +296,8 @@ def _part_b(case: dict, root: str) -> dict:
         res = dict(
             verdict="ok" if sig is None else "violation",
             digest=sim.digest(), nontrivial=sim.multi_choice_steps > 0, steps=sim.steps,
-            probes={f"refusal_{kind}": 1, f"refusal_exc_{type(sim.main.exc).__name__}": 1}, head=sim.head(20), choices=list(sim.choices),
+            probes={f"refusal_{kind}": 1, f"refusal_exc_{type(sim.main.exc).__name__}": 1,
+                    "misaligned_first_and_smaller": int(bool(case.get("swap")) and case.get("big") == "A" and kind in ("displaced", "permuted"))}, head=sim.head(20), choices=list(sim.choices),
         )
         if sig is not None:
             res.update(signature=sig, detail=detail, tail=sim.tail(20))
